@@ -1061,7 +1061,10 @@ def encode(case):
             return [PRIM_CODE[op]] + enc_list(arg, lambda kv: enc_str(kv[0]) + enc_str(kv[1]))
         return [PRIM_CODE[op]] + enc_str(arg)
     if case['kind'] == 'modes':
-        return ([7, 0 if case['mode'] == 'append' else 1] + enc_list(case['d0'], lambda kv: enc_str(kv[0]) + enc_str(kv[1]))
+        d0 = case['d0']
+        if case['mode'] != 'append':          # the target is a dict built from d0: one entry per key, last value
+            d0 = [[S(k), S(v)] for k, v in dict((T(k), T(v)) for k, v in d0).items()]
+        return ([7, 0 if case['mode'] == 'append' else 1] + enc_list(d0, lambda kv: enc_str(kv[0]) + enc_str(kv[1]))
                 + enc_str(S(modes_qs(case))))
     if case['kind'] == 'reuse':
         return [8] + enc_list(case['reqs'], lambda qb: enc_str(qb[0]) + enc_str(qb[1]))
@@ -1368,6 +1371,8 @@ def oracle_seq_ops(case, obs):
                     want = group(q) if a == 'query' else group(b) if a == 'forms' else merge(group(q), group(b))
                     if k == 'attr':
                         want = [it for it in want if it[0] == o[2]]
+                elif a != 'query' and ct in CT_OTHER:
+                    want = 'other'            # multipart / JSON content types never reach the urlencoded parser
             if got != want:
                 return ('%s #%d (%s) after %s returned %s, expected %s: the read does not decode what the '
                         'request carries at that moment' % (k, n + 1, a, '/'.join(history) or 'nothing',
@@ -1545,7 +1550,55 @@ def pred_body_replaced_after_read(case, what, m):
     return stale
 
 
-PREDICATES = {'body_replaced_after_read': pred_body_replaced_after_read}
+def pred_chunked_with_content_length(case, what, m):
+    """F35: a chunked request that also carries a Content-Length header"""
+    return case.get('kind') == 'frame' and bool(case.get('chunked')) and case.get('cl', -1) >= 0
+
+
+# Round-4 audit: everything public in the anchored code that can influence what C18 observes.
+API_SURFACE = [
+    ('helpers.parse_qsl(qs)  [container mode, return value]', 'covered by rt/raw via=direct'),
+    ('helpers.parse_qsl(qs, append=)', 'covered by modes/append (non-empty target list; returns None)'),
+    ('helpers.parse_qsl(qs, setitem=)', 'covered by rt/raw/seq through Request.query/forms and by modes/setitem '
+                                        '(non-empty target dict, keys already present)'),
+    ('helpers.parse_qsl(qs, append=, setitem=) both', 'covered by modes/both (setitem wins, append never called)'),
+    ('helpers.parse_qsl(qs) with qs not a str (bytes/None)', 'excluded: callers pass str only (QUERY_STRING, touni(...))'),
+    ('helpers.FormsDict item access / iteration order', 'covered by every query/forms/params observation (insertion order compared)'),
+    ('helpers.FormsDict.copy', 'covered by seq op copy (type, identity, independence of the cached view)'),
+    ('helpers.FormsDict.__getattr__', 'covered by seq op attr (present key, list value, missing name -> None, dunder -> '
+                                      'AttributeError); names that are dict attributes are excluded: the dict method wins by design'),
+    ('helpers.cache_in(attr) attribute storage', 'covered by cachein form=attr'),
+    ('helpers.cache_in("store[ key ]") / cache_in(attr, key=)', 'covered by cachein form=key / key_kw and by every Request property'),
+    ('helpers.cache_in read_only=True/False, fset, fdel', 'covered by cachein (set/del accepted, refused, nothing cached)'),
+    ('helpers.cache_in getter raising AttributeError -> PropertyGetterError', 'covered by cachein fails=True'),
+    ('BodyMixin.query / GET', 'covered by rt/raw via=query, seq, reuse (GET is the same property object)'),
+    ('BodyMixin.forms / POST, urlencoded branch', 'covered by rt/raw via=forms, seq, frame, reuse'),
+    ('BodyMixin.POST JSON branch / multipart branch', 'selection covered by seq op set_ctype + CT_OTHER; the parsers '
+                                                      'themselves excluded: C07 / C12'),
+    ('BodyMixin.content_type / ctype (case, parameters, missing)', 'covered by seq ct/set_ctype and frame ctype over CT_URLENC'),
+    ('BodyMixin.content_length (missing, empty, numeric)', 'covered by frame cl=-1 / cl_empty / declared length != size; '
+                                                           'non-numeric excluded: int() failure is C12'),
+    ('BodyMixin.chunked + Content-Length together', 'covered by frame chunked+cl (finding F35)'),
+    ('BodyMixin._get_body_string (rewind, caps, 413)', 'covered by frame (thresholds around the size) and seq op read_body'),
+    ('BodyMixin.body / _body', 'covered by seq op read_body, frame; spooling to disk excluded: C13'),
+    ('PropsMixin.params', 'covered by rt via=params_*, seq, reuse'),
+    ('PropsMixin.query_string', 'covered by seq ops set_qs/del_qs (checked after every update)'),
+    ('BaseRequest.__setitem__ (QUERY_STRING, wsgi.input, CONTENT_LENGTH, CONTENT_TYPE, HTTP_*, other keys, unchanged value)',
+     'covered by seq ops set_qs/set_body/set_ctype/set_other'),
+    ('BaseRequest.__setitem__ on environ["ombott.request.readonly"]', 'covered by seq ro=True (KeyError, nothing changes)'),
+    ('BaseRequest.__delitem__', 'covered by seq op del_qs'),
+    ('BaseRequest._on_env_changed', 'covered: every branch reached (coverage switch)'),
+    ('BaseRequest.copy()', 'excluded: shallow environ copy shares the cached FormsDicts by design (documented); '
+                           'not an urlencoding question'),
+    ('BaseRequest._forms_factory override', 'excluded: customisation point; the property is about FormsDict'),
+    ('config max_memfile_size / max_body_size (Ombott(dict), defaults)', 'covered by frame (constructor dict) and seq/rt '
+                                                                         '(defaults); setup() excluded: C13'),
+    ('application object reused across requests', 'covered by reuse (one Ombott, several __call__)'),
+    ('module-level state', 'none in the anchored code (urllib.parse._hextobyte is a lazily built constant table)'),
+]
+
+PREDICATES = {'body_replaced_after_read': pred_body_replaced_after_read,
+              'chunked_with_content_length': pred_chunked_with_content_length}
 
 MANIFEST = dict(
     text=('Proof: coq/props/C18.v, 12 theorems, all closed under the global context. C18_roundtrip: for ALL lists of '
